@@ -25,10 +25,12 @@ def call(eng, e, st, stmt):
     kwargs = {k.arg: eng.eval(k.value, st) for k in e.keywords}
     kind = fv.kind
     if kind == 'builtin':
+        kw_guard(eng, fv.payload, kwargs, e)
         return eng.builtins[fv.payload](eng, e, st, args, kwargs)
     if kind == 'modattr':
         name = '%s.%s' % fv.payload
         if name in eng.builtins:
+            kw_guard(eng, name, kwargs, e)
             return eng.builtins[name](eng, e, st, args, kwargs)
         q = '%s:%s' % fv.payload
         if q in Contract.registry:
@@ -38,6 +40,7 @@ def call(eng, e, st, stmt):
         imp = fv.payload
         q = '%s:%s' % (imp[1], imp[2])
         if q in eng.builtins:
+            kw_guard(eng, q, kwargs, e)
             return eng.builtins[q](eng, e, st, args, kwargs)
         if q in Contract.registry:
             return apply_contract(eng, Contract.registry[q], None, args, kwargs, e, st)
@@ -53,6 +56,7 @@ def call(eng, e, st, stmt):
         obj, name, objexpr = fv.payload
         q = '%s.%s' % (obj.cls, name)
         if q in eng.builtins:
+            kw_guard(eng, q, kwargs, e)
             return eng.builtins[q](eng, e, st, [obj] + args, kwargs)
         if q in Contract.registry:
             return apply_contract(eng, Contract.registry[q], (obj, objexpr), args, kwargs, e, st)
@@ -61,6 +65,7 @@ def call(eng, e, st, stmt):
         val, name, valexpr = fv.payload
         key = 'method.' + name
         if key in eng.builtins:
+            kw_guard(eng, key, kwargs, e)
             return eng.builtins[key](eng, e, st, val, valexpr, args, kwargs)
         raise Unsupported('%s: method .%s() on %r (line %d) is not modelled' % (fc.qualname, name, val, e.lineno))
     if kind == 'native':
@@ -138,8 +143,45 @@ def coerce(v, shape, eng):
         return v
 
 
+# Keyword arguments a builtin model takes into account (or that cannot change the modelled result).  A keyword argument outside this map makes
+# the call unsupported: a model that silently ignored `fallback=`, `maxsplit=` or `key=` would verify code it does not describe.
+KW_OK = {
+    'open': {'mode', 'encoding', 'errors', 'newline'}, 'codecs.open': {'mode', 'encoding', 'errors'},
+    'traceback.print_exc': {'file'}, 'threading.Thread': {'target', 'args', 'daemon', 'name'},
+    'print': {'file', 'end', 'sep', 'flush'},
+}
+KW_ANY_PREFIX = ('argparse', 'argparse:')
+
+
+def kw_guard(eng, name, kwargs, e):
+    if not kwargs:
+        return
+    if name.startswith(KW_ANY_PREFIX) or name in getattr(eng, 'kw_any', ()):
+        return
+    extra = sorted(set(kwargs) - KW_OK.get(name, set()) - getattr(eng, 'kw_ok', {}).get(name, set()))
+    if extra:
+        raise Unsupported('%s(... %s=) at line %d: the model of this builtin does not take that keyword argument into account'
+                          % (name, '=, '.join(extra), e.lineno))
+
+
+_PLAIN_DECORATORS = ('staticmethod', 'classmethod')
+
+
+def refuse_decorated(eng, qualname):
+    """A contract (verified or trusted) describes the function body; a decorator (functools.lru_cache, a wrapper) changes what a call does,
+    so a decorated callee is outside the subset.  Functions that cannot be located (library contracts) are not examined."""
+    try:
+        node, _info, _src = eng.src.function(qualname.split('#')[0])
+    except Exception:
+        return
+    decs = [ast.unparse(d) for d in getattr(node, 'decorator_list', []) if ast.unparse(d) not in _PLAIN_DECORATORS]
+    if decs:
+        raise Unsupported('%s is decorated with %s: the contract describes the undecorated body' % (qualname, ', '.join('@' + d for d in decs)))
+
+
 def apply_contract(eng, con, selfpair, args, kwargs, e, st, ctor=None):
     fc = eng.cur
+    refuse_decorated(eng, con.qualname)
     if ctor is not None:
         # constructor: the contract of __init__ builds the object (self is its result)
         selfpair = None
